@@ -184,19 +184,52 @@ NAME_FORMS = [
 
 
 def drv_names(c, ctx, col):
-    import pandas as pd
-    from formulaic import model_matrix
-    from formulaic.parser.types import Factor
-
     name = "".join(c.seq(NAME_CHARS, ctx["L"], 1))
     form = c.pick(NAME_FORMS if len(name) < ctx["L"] or ctx["L"] < 3 else ctx["forms_longest"])
-    fname, tmpl, lookups, pyexpr, expect = form
     if "\\" in name:
         col.count("unspecified:back-slash-in-name")
         raise Skip()
-    formula = tmpl.replace("%s", name)
     if re.search(r"\W", name):
         col.interesting()
+    check_name(col, name, form)
+
+
+# names that are (or look like) Python identifiers but cannot be written as such ------------------------------
+SPECIAL_CHARS = ["a", "_", "1", "\u00b2", "\u00bd", "\ufb01", "\u00b5", "\u00aa", "\uff41", "\u0301", "\u4e2d", "\u0661"]
+#                 a    _    1    superscript 2, one half (alphanumeric, not identifier characters), fi ligature, micro sign,
+#                 feminine ordinal, full-width a (identifiers that NFKC-normalise to something else), combining acute
+#                 (e + it = decomposed e-acute), a CJK letter, an Arabic-Indic digit (both fine in identifiers)
+
+
+def special_names(L):
+    import itertools
+    import keyword
+    out = list(keyword.kwlist) + [k for k in getattr(keyword, "softkwlist", []) if k not in keyword.kwlist]
+    for n in range(1, L + 1):
+        for tup in itertools.product(SPECIAL_CHARS, repeat=n):
+            out.append("".join(tup))
+    return out
+
+
+def drv_names_special(c, ctx, col):
+    names = ctx["names"]
+    name = names[c.choose(len(names))]
+    form = c.pick(NAME_FORMS if len(name) < ctx["L"] or name.isascii() else ctx["forms_longest"])
+    if re.fullmatch(r"[0-9]+", name):
+        col.count("skipped:numeric-literal-name(K2 under C01)")
+        raise Skip()
+    col.interesting()
+    check_name(col, name, form)
+
+
+def check_name(col, name, form):
+    import unicodedata
+
+    import pandas as pd
+    from formulaic import model_matrix
+
+    fname, tmpl, lookups, pyexpr, expect = form
+    formula = tmpl.replace("%s", name)
     key = "names/%s :: %r" % (fname, formula)
     col.sample({"name": name, "formula": formula})
 
@@ -223,31 +256,45 @@ def drv_names(c, ctx, col):
         return
 
     # 2. materialized: the factor picks that column
-    df = pd.DataFrame({name: VALS, "zz": ZZ, "other": [9.0, 8.0, 7.0]})
+    data = {name: VALS, "zz": ZZ, "other": [9.0, 8.0, 7.0]}
+    folded = unicodedata.normalize("NFKC", name)
+    if folded not in data:
+        data[folded] = [-1.0, -2.0, -3.0]   # a different column that the name must not be confused with
+    df = pd.DataFrame(data)
     try:
         mm = model_matrix(formula, df, context={"double": lambda x: 2 * x})
         cols = [[round(float(x), 9) for x in mm.iloc[:, j]] for j in range(mm.shape[1]) if mm.columns[j] != "Intercept"]
     except Exception as e:  # noqa
-        col.violation(key, {"formula": formula, "name": name, "columns_in_data": [name, "zz", "other"],
+        col.violation(key, {"formula": formula, "name": name, "columns_in_data": list(data),
                             "error": "%s: %s" % (type(e).__name__, str(e)[:300]),
                             "repro": "model_matrix(%r, pandas.DataFrame({%r: [1.5, 2.5, 4.0], 'zz': [3., 5., 7.]}), context={'double': lambda x: 2 * x})" % (formula, name)},
                       sig=name_sig(name, fname, "quoted-name-not-materialized"))
         return
     wantcols = [[round(float(x), 9) for x in v] for v in expect(VALS, ZZ)]
     if sorted(cols) != sorted(wantcols):
-        col.violation(key, {"formula": formula, "name": name, "got_columns": cols, "want_columns": wantcols,
+        col.violation(key, {"formula": formula, "name": name, "got_columns": cols, "want_columns": wantcols, "columns_in_data": list(data),
                             "repro": "model_matrix(%r, pandas.DataFrame({%r: [1.5, 2.5, 4.0], 'zz': [3., 5., 7.]}), context={'double': lambda x: 2 * x})" % (formula, name)},
                       sig=name_sig(name, fname, "quoted-name-wrong-column"))
 
 
 def name_sig(name, form, symptom):
     """group by symptom, the kind of form (plain operand / inside Python code) and the character class responsible"""
+    import keyword
+    import unicodedata
+    where = "in-python-fragment" if form in ("call", "brace", "brace-twice") else "as-operand"
+    # one signature per class of name that cannot be spelled as a Python identifier although it looks like one
+    if where == "in-python-fragment":
+        if keyword.iskeyword(name):
+            return "backticked-name-in-python-fragment:python-keyword"
+        if any(re.match(r"\w", ch) and not ("a" + ch).isidentifier() for ch in name):
+            return "backticked-name-in-python-fragment:alphanumeric-character-not-valid-in-identifiers"
+        if unicodedata.normalize("NFKC", name) != name:
+            return "backticked-name-in-python-fragment:identifier-changed-by-NFKC-normalisation"
     feats = []
     if "'" in name or '"' in name:
         feats.append("quote")
     if not name.strip():
         feats.append("blank")
-    where = "in-python-fragment" if form in ("call", "brace", "brace-twice") else "as-operand"
     return "%s:%s%s" % (symptom, where, ("[" + "+".join(feats) + "]") if feats else "")
 
 
@@ -402,7 +449,9 @@ class PyCase:
                 self._variants[k] = vc
         return self._variants[k]
 
-    def sig(self, form, symptom):
+    def sig(self, form, symptom, baseline_fails=True):
+        if not baseline_fails:   # only a re-formatting fails: name the symptom, not a feature of the expression
+            return "python-fragment:" + symptom
         if self.feats_common:
             return "python-fragment:" + self.feats_common[0]
         if form == "brace" and self.top_brace:
@@ -484,13 +533,97 @@ def drv_python(c, ctx, col):
         col.count("variant-of-an-already-failing-baseline")
         return
     if g1[0] != "OK":
-        col.violation(key, detail(), sig=case.sig(form, "valid-fragment-" + {"REJECT": "rejected", "ESCAPE": "raises", "SHAPE": "not-one-factor"}[g1[0]]))
+        col.violation(key, detail(), sig=case.sig(form, "valid-fragment-" + {"REJECT": "rejected", "ESCAPE": "raises", "SHAPE": "not-one-factor"}[g1[0]], variant == base))
         return
     if LX.python_ast(g1[1]) != case.ast:
-        col.violation(key, detail(want_ast_of=case.expr), sig=case.sig(form, "not-ast-equivalent"))
+        col.violation(key, detail(want_ast_of=case.expr), sig=case.sig(form, "not-ast-equivalent", variant == base))
         return
     if g0[0] == "OK" and g1[1] != g0[1]:
-        col.violation(key, detail(), sig=case.sig(form, "variants-differ"))
+        col.violation(key, detail(), sig=case.sig(form, "variants-differ", variant == base))
+
+
+# string literals inside Python fragments --------------------------------------------------------------------------
+
+#  pieces of a literal's body; q = the literal's own quote character, Q = the other one
+LIT_ATOMS = ["a", " ", "`x`", "`a b`", "`", "\\q", "Q", "\\\\", ")", "}"]
+LIT_TEMPLATES = [
+    ("lab(x, %s)", True),                      # materialized: lab receives the literal
+    ("lab(%s, `a b`)", False),
+    ("{lab(%s) + `a b`}", False),
+    ("lab(%s, '`x`')", False),                 # a later literal that contains back-quotes
+    ("{lab(x, %s) + lab(`a b`, \"`x`\")}", True),
+]
+
+
+def string_constants(code):
+    """contents of all string literals of a Python expression, in order (back-ticked names aliased first)"""
+    src, _ = LX.alias_backticks(code)
+    if src is None:
+        return None
+    try:
+        tree = ast.parse(src.strip(), mode="eval")
+    except SyntaxError:
+        return None
+    return [n.value for n in ast.walk(tree) if isinstance(n, ast.Constant) and isinstance(n.value, str)]
+
+
+def lit_sig(formula, symptom):
+    """one signature for the known root cause 'an escaped back-slash directly before a quote character'"""
+    if re.search(r"\\\\[\"']", formula):
+        return "string-literal-in-python-fragment:escaped-backslash-before-a-quote"
+    return "string-literal-in-python-fragment:" + symptom
+
+
+def drv_py_strings(c, ctx, col):
+    q = c.pick(["'", '"'])
+    Q = '"' if q == "'" else "'"
+    body = "".join(a.replace("q", q).replace("Q", Q) if a in ("\\q", "Q") else a for a in c.seq(LIT_ATOMS, ctx["L"]))
+    lit = q + body + q
+    tmpl, materialize = c.pick(LIT_TEMPLATES)
+    formula = tmpl % lit
+    inner = formula[1:-1] if formula.startswith("{") else formula
+    want_ast, want_strings = LX.python_ast(inner), string_constants(inner)
+    if want_ast is None:
+        raise AssertionError("harness: %r is not valid Python" % inner)
+    if "\\" in body or "`" in body:
+        col.interesting()
+    key = "py-strings :: %r" % formula
+    col.sample({"formula": formula, "literal_content": ast.literal_eval(lit)})
+    got = factor_of(formula)
+    detail = {"formula": formula, "literal": lit, "literal_content": ast.literal_eval(lit), "got": got,
+              "repro": "DefaultFormulaParser(include_intercept=False).get_terms(%r)" % formula}
+    if got[0] != "OK":
+        col.violation(key, detail, sig=lit_sig(formula, "not-parsed"))
+        return
+    got_strings = string_constants(got[1])
+    if got_strings != want_strings:
+        col.violation(key, dict(detail, got_literal_contents=got_strings, want_literal_contents=want_strings),
+                      sig=lit_sig(formula, "content-changed"))
+        return
+    if LX.python_ast(got[1]) != want_ast:
+        col.violation(key, detail, sig=lit_sig(formula, "not-ast-equivalent"))
+        return
+    if not materialize:
+        return
+    # evaluated: the function receives exactly the literal's content
+    import pandas as pd
+    from formulaic import model_matrix
+    seen = []
+
+    def lab(x, s):
+        seen.append(s)
+        return x
+
+    try:
+        model_matrix(formula, pd.DataFrame({"x": VALS, "a b": ZZ}), context={"lab": lab})
+    except Exception as e:  # noqa
+        col.violation(key, dict(detail, error="%s: %s" % (type(e).__name__, str(e)[:300])), sig=lit_sig(formula, "not-evaluated"))
+        return
+    want_seen = [ast.literal_eval(lit)] + (["`x`"] if "lab(`a b`" in formula else [])
+    if sorted(set(seen)) != sorted(set(want_seen)):
+        col.violation(key, dict(detail, literals_received=seen, literals_expected=want_seen,
+                                repro="model_matrix(%r, DataFrame({'x': ..., 'a b': ...}), context={'lab': lambda x, s: (print(repr(s)), x)[1]})" % formula),
+                      sig=lit_sig(formula, "content-changed"))
 
 
 def wrap_first_argument(case):
@@ -619,6 +752,13 @@ def subchecks(tier, seed):
         Sub("names", drv_names, {"L": 3 if quick else 4, "forms_longest": [f for f in NAME_FORMS if f[0] in ("alone", "star", "call", "brace-twice")]},
             shard_depth=3, bounds={"alphabet": NAME_CHARS, "max_length": 3 if quick else 4, "forms": [f[1] for f in NAME_FORMS],
                                    "forms_at_the_maximal_length": ["`%s`", "`%s`*zz", "double(`%s`)", "{`%s` * `%s`}"]}),
+        Sub("names-special", drv_names_special, {"names": special_names(2 if quick else 3), "L": 2 if quick else 3,
+                                                 "forms_longest": [f for f in NAME_FORMS if f[0] in ("alone", "call", "brace-twice")]},
+            shard_depth=1, bounds={"names": "all Python keywords and soft keywords; every string of length <= %d over %r"
+                                            % (2 if quick else 3, SPECIAL_CHARS), "forms": [f[1] for f in NAME_FORMS]}),
+        Sub("py-strings", drv_py_strings, {"L": 3 if quick else 4}, shard_depth=3,
+            bounds={"literal_body_atoms": LIT_ATOMS, "max_atoms": 3 if quick else 4, "quotes": ["'", '"'],
+                    "templates": [t for t, _ in LIT_TEMPLATES]}),
         Sub("python", drv_python, {"subset_bound": 8 if quick else 10}, shard_depth=2,
             bounds={"expressions": len(PY_EXPRS), "all_subsets_of_boundaries_up_to": 8 if quick else 10,
                     "beyond": "all single and pairwise insertions, none, all"}),
